@@ -819,3 +819,113 @@ theorem C06_staging_terminates_of_test (g : SG) (nodes : List Nat) (hnd : nodes.
     (∀ v ∈ nodes, g.offline v = true → v ∈ (offlineStages g nodes).2.trained)
     ∧ (offlineStages g nodes).1.length ≤ (nodes.filter g.offline).length :=
   C06_staging_terminates g nodes hnd ((topoLB_iff g nodes []).mp htest)
+
+
+/-! ### routing of the data across the cut edges (model of the code as it is, findings K20–K23) -/
+
+/-- a forward node all of whose predecessors are run in its own stage receives exactly its predecessors, in operand
+    order: inside one stage the routing is right -/
+theorem C06_delivered_internal (g : SG) (prevSub curSub fw : List Nat) (c : Nat)
+    (h : ∀ p ∈ g.parents c, p ∈ fw) (hsub : ∀ p ∈ fw, p ∈ curSub) :
+    delivered g prevSub curSub fw c = some (g.parents c) := by
+  have hint : (g.parents c).filter (fun p => fw.contains p) = g.parents c := by
+    apply List.filter_eq_self.mpr
+    intro p hp; simp [h p hp]
+  have hext : (g.parents c).filter (fun p => prevSub.contains p && !curSub.contains p) = [] := by
+    apply List.filter_eq_nil_iff.mpr
+    intro p hp
+    simp [hsub p (h p hp)]
+  simp only [delivered, hint, hext]
+
+/-- one operand forwarded from the previous stage is delivered correctly exactly when it is the LAST operand: the
+    dispatcher appends it after the internal ones -/
+theorem C06_delivered_last_external (g : SG) (prevSub curSub fw : List Nat) (c q : Nat) (ps : List Nat)
+    (hpar : g.parents c = ps ++ [q]) (hps : ∀ p ∈ ps, p ∈ fw) (hsub : ∀ p ∈ fw, p ∈ curSub)
+    (hq : q ∈ prevSub) (hqc : q ∉ curSub) :
+    delivered g prevSub curSub fw c = some (g.parents c) := by
+  have hqfw : q ∉ fw := fun h => hqc (hsub q h)
+  have hint : (g.parents c).filter (fun p => fw.contains p) = ps := by
+    rw [hpar, List.filter_append]
+    have h1 : ps.filter (fun p => fw.contains p) = ps := List.filter_eq_self.mpr (by intro p hp; simp [hps p hp])
+    have h2 : [q].filter (fun p => fw.contains p) = [] := by simp [hqfw]
+    rw [h1, h2, List.append_nil]
+  have hext : (g.parents c).filter (fun p => prevSub.contains p && !curSub.contains p) = [q] := by
+    rw [hpar, List.filter_append]
+    have h1 : ps.filter (fun p => prevSub.contains p && !curSub.contains p) = [] := by
+      apply List.filter_eq_nil_iff.mpr
+      intro p hp; simp [hsub p (hps p hp)]
+    have h2 : [q].filter (fun p => prevSub.contains p && !curSub.contains p) = [q] := by simp [hq, hqc]
+    rw [h1, h2, List.nil_append]
+  simp only [delivered, hint, hext]
+  rw [hpar]
+
+/-- … and wrongly when it is not: with `parents c = q :: p :: ps`, `q` forwarded and the others internal, `c` receives
+    `p :: ps ++ [q]` — the readout behind it is fitted on permuted features (finding K20) -/
+theorem C06_delivered_first_external (g : SG) (prevSub curSub fw : List Nat) (c q p : Nat) (ps : List Nat)
+    (hpar : g.parents c = q :: p :: ps) (hps : ∀ x ∈ p :: ps, x ∈ fw) (hsub : ∀ x ∈ fw, x ∈ curSub)
+    (hq : q ∈ prevSub) (hqc : q ∉ curSub) :
+    delivered g prevSub curSub fw c = some (p :: ps ++ [q]) := by
+  have hqfw : q ∉ fw := fun h => hqc (hsub q h)
+  have hint : (g.parents c).filter (fun x => fw.contains x) = p :: ps := by
+    rw [hpar, List.filter_cons_of_neg (by simp [hqfw])]
+    exact List.filter_eq_self.mpr (by intro x hx; simp [hps x hx])
+  have hext : (g.parents c).filter (fun x => prevSub.contains x && !curSub.contains x) = [q] := by
+    rw [hpar, List.filter_cons_of_pos (by simp [hq, hqc])]
+    congr 1
+    apply List.filter_eq_nil_iff.mpr
+    intro x hx; simp [hsub x (hps x hx)]
+  simp only [delivered, hint, hext]
+
+/-- when the model reports no fault for a stage, every forward node of the stage receives exactly its predecessors in
+    operand order and every node trained in it gets its data -/
+theorem C06_no_fault_sound (g : SG) (prevSub curSub : List Nat) (nextSub : Option (List Nat)) (tr fw : List Nat)
+    (h : stageFaults g prevSub curSub nextSub tr fw = []) :
+    (∀ c ∈ fw, delivered g prevSub curSub fw c = some (g.parents c))
+    ∧ (∀ v ∈ tr, ∀ nx, nextSub = some nx → v ∈ nx) := by
+  simp only [stageFaults, List.append_eq_nil_iff, List.filterMap_eq_nil_iff] at h
+  refine ⟨?_, ?_⟩
+  · intro c hc
+    have := h.1 c hc
+    cases hd : delivered g prevSub curSub fw c with
+    | none => simp [hd] at this
+    | some l =>
+      simp only [hd] at this
+      by_cases hl : l = g.parents c
+      · rw [hl]
+      · simp only [hl, if_false] at this
+        split at this <;> simp at this
+  · intro v hv nx hnx
+    have := h.2 v hv
+    simp only [hnx] at this
+    by_cases hm : nx.contains v = true
+    · simpa using hm
+    · simp [hm] at this
+      exact this
+
+/-! the four recorded findings, as the model sees them (graphs WITH their concatenation nodes; `parents` in operand
+    order = sorted by name, the input sorting first) -/
+
+/-- K20: `(inp >> r1 >> o1 >> r2 >> o2) & (inp >> o2)`; 0 inp, 1 r1, 2 o1, 3 r2, 4 Concat(inp, r2), 5 o2 -/
+def gK20 : SG := ⟨fun v => [[], [0], [1], [2], [0, 3], [4]].getD v [], fun v => v == 5, fun v => v == 2 || v == 5⟩
+example : routeFaults gK20 [0, 1, 2, 3, 4, 5] = [.order 4] := by decide
+/-- the same model with the shortcut as LAST operand is routed correctly -/
+def gK20ok : SG := ⟨fun v => [[], [0], [1], [2], [3, 0], [4]].getD v [], fun v => v == 5, fun v => v == 2 || v == 5⟩
+example : routeFaults gK20ok [0, 1, 2, 3, 4, 5] = [] := by decide
+
+/-- K21: `(inp >> r1 >> o1 >> r2 >> o2 >> r3 >> o3) & (r1 >> o3)`; 7 = Concat(r1, r3), 8 = o3 -/
+def gK21 : SG := ⟨fun v => [[], [0], [1], [2], [3], [4], [], [1, 5], [7]].getD v [], fun v => v == 8,
+                  fun v => v == 2 || v == 4 || v == 8⟩
+example : routeFaults gK21 [0, 1, 2, 3, 4, 5, 7, 8] = [.missing 7] := by decide
+
+/-- K22: `(inp >> r1 >> o1) & ([inp, r1, o1] >> o2)`; 3 = Concat(inp, r1, o1), 4 = o2 -/
+def gK22 : SG := ⟨fun v => [[], [0], [1], [0, 1, 2], [3]].getD v [], fun v => v == 4, fun v => v == 2 || v == 4⟩
+example : routeFaults gK22 [0, 1, 2, 3, 4] = [.overwrite 3] := by decide
+
+/-- K23: `inp >> r1 >> oA` next to `inp >> r2 >> oB >> oC`; 2 = oA (exit, trained in stage 1 of 2) -/
+def gK23 : SG := ⟨fun v => [[], [0], [1], [0], [3], [4]].getD v [], fun v => v == 2 || v == 5,
+                  fun v => v == 2 || v == 4 || v == 5⟩
+example : routeFaults gK23 [0, 1, 2, 3, 4, 5] = [.noTrainData 2] := by decide
+
+/-- a deep chain without shortcuts has no fault -/
+example : routeFaults demoG [0, 1, 2, 3] = [] := by decide
+
